@@ -884,7 +884,8 @@ func (s *State) extendFunctionEnv(
 		pval := object.Value(args[paramIdx])
 		needVariable := true
 		// (a constant name goes through CreateOrSet below so that an already bound constant can't be shadowed)
-		if !s.NoReg && pval.Type() == object.INTEGER && env.HasRegisters() && !object.Constant(param.Value().Literal()) {
+		if !s.NoReg && pval.Type() == object.INTEGER && env.HasRegisters() && !object.Constant(param.Value().Literal()) &&
+			plainName(param.Value().Literal()) {
 			// We will release all these registers just by returning/dropping the env.
 			reg, nbody, ok := setupRegister(env, param.Value().Literal(), pval.(object.Integer).Value, newBody)
 			if ok {
@@ -1023,6 +1024,12 @@ func ModifyRegister(register *object.Register, in ast.Node) (ast.Node, bool) {
 	return in, true
 }
 
+// plainName tells if name is looked up like any variable: self and the names of extension functions are not,
+// binding them is refused or ignored, which a register would bypass.
+func plainName(name string) bool {
+	return name != "self" && !object.IsExtraFunction(name)
+}
+
 // usesRegister tells if the (already rewritten) tree mentions the register.
 func usesRegister(n ast.Node, register *object.Register) bool {
 	found := false
@@ -1101,7 +1108,7 @@ func (s *State) evalForInteger(fe *ast.ForExpression, start *int64, end int64, n
 	ownReg := false
 	if loopReg != nil {
 		ptr = loopReg.Ptr() // the body already refers to that register.
-	} else if name != "" && !s.NoReg && s.env.HasRegisters() && !s.env.IsOuter(name) {
+	} else if name != "" && !s.NoReg && s.env.HasRegisters() && !s.env.IsOuter(name) && plainName(name) {
 		// (a loop variable that is a variable of an enclosing environment is updated there at each iteration)
 		ownReg = true
 		var ok bool
